@@ -150,7 +150,3 @@ def run(ctx: core.Ctx) -> core.Report:
     stateful.run_scenarios(ctx, rep, make, oracle, ctx.n(160, 2400), "c09")
     return rep
 
-
-def replay(ctx, data):
-    print(data)
-    return 0
